@@ -928,7 +928,11 @@ func (v *Verifier) execInstr(fn *ssa.Function, s *State, ins ssa.Instruction, fc
 	case *ssa.Go:
 		v.execGo(s, t)
 	case *ssa.Send:
-		s.note("channel send not modelled")
+		// only the number of sends per channel is recorded (sent(ch) in specifications); values and blocking are not modelled
+		s.note("channel send: only counted")
+		ch := v.reg(s, t.Chan)
+		h := s.heapArr("chan#sent", ArrSort(SInt, SInt))
+		s.heap["chan#sent"] = Store(h, ch.term(), Add(Select(h, ch.term()), Int(1)))
 	case *ssa.Select:
 		v.execSelect(s, t)
 	default:
